@@ -172,7 +172,7 @@ func checkMain(args []string) int {
 		fmt.Printf("no check for %s\n", prop)
 		return 2
 	}
-	eng, err := loadEngine(repo, filepath.Join(in, "contracts"))
+	eng, err := loadEngine(repo, filepath.Join(in, "contracts"), prop)
 	if err != nil {
 		fmt.Println("cannot load", repo, ":", err)
 		return 2
